@@ -159,8 +159,8 @@ theorem gen_IsPowerOf2_eq (v : Nat) (hv : v < W32) : gen_IsPowerOf2_translated =
     have hb : (v != 0) = true := by simpa using h0
     rw [hb, Bool.true_and]
     by_cases hz : v &&& (v - 1) = 0
-    · simp [hz]
-    · simp [hz]
+    · first | (simp [hz]; done) | (simp [hz, h0]; done) | (simp_all; done) | (simp [hz, h0, hv0] <;> omega)
+    · first | (simp [hz]; done) | (simp [hz, h0]; done) | (simp_all; done) | (simp [hz, h0, hv0] <;> omega)
 
 /-! ## (5) path laws: leading `./`, join, split/re-join, extension replacement
 
